@@ -9,7 +9,10 @@
    images / transcription result for a few probe displacements (both directions, getDist).
    Alphabet: zero matrix (open), diagonal and GROMACS-reduced triclinic matrices of
    different sizes, each with "auto" and with the explicit types that are consistent
-   with the matrix.  TLC enumerates every history up to Depth; deeper ones by simulation. *)
+   with the matrix, "ortho" on a triclinic matrix (documented part only) and
+   Topology::Cleanup().  After every call the runner also probes a BoundaryCondition::Clone()
+   of the boundary and a Topology filled by CopyTopologyData: both must answer like the
+   original.  TLC enumerates every history up to Depth; deeper ones by simulation. *)
 EXTENDS Pbc, TLC, Json, Sequences
 
 CONSTANTS Calls,      \* set of [box, req]
@@ -29,13 +32,18 @@ ProbeExp(b, typ, rr) ==
       pairs |-> << [i |-> P0, j |-> VAdd(P0, rr),
                     algo |-> AlgoMI(b, typ, rr), algob |-> AlgoMI(b, typ, VNeg(rr))] >>]
 
-\* what a fresh Topology with this box answers
+\* An explicitly requested type that does not match the matrix ("ortho" on a non-diagonal
+\* matrix): only what is documented is expected - the requested type is reported, the matrix is
+\* stored, the volume is that of the parallelepiped; no connection vector or height is asserted.
+Loose(c) == c.req = "ortho" /\ ~IsDiagonal(c.box)
+\* what a fresh Topology with this box answers.  req = "cleanup" is Topology::Cleanup():
+\* the boundary becomes open (the stored matrix is unspecified afterwards).
 StepExp(c) ==
-  LET typ == EffType(c.box, c.req)
-  IN [box |-> <<c.box.a, c.box.b, c.box.c>>, req |-> c.req, typ |-> typ,
+  LET typ == IF c.req = "cleanup" THEN "open" ELSE EffType(c.box, c.req)
+  IN [box |-> <<c.box.a, c.box.b, c.box.c>>, req |-> c.req, typ |-> typ, loose |-> Loose(c),
       vol |-> Volume(c.box),
       hn2 |-> IF IsZeroBox(c.box) THEN 0 ELSE ShortN2(c.box),
-      probes |-> {ProbeExp(c.box, typ, rr) : rr \in Probes}]
+      probes |-> IF Loose(c) THEN {} ELSE {ProbeExp(c.box, typ, rr) : rr \in Probes}]
 
 Init == h = <<>>
 Next == /\ Len(h) < Depth
@@ -53,11 +61,11 @@ InvProbe == h # <<>> => \A p \in Last.probes :
               /\ Last.typ = "open" => p.pairs[1].algo = p.r
               /\ ~p.tie => p.pairs[1].algob = VNeg(p.pairs[1].algo)
 CallsOK == \A c \in Calls : /\ IsZeroBox(c.box) \/ Reduced(c.box)
-                            /\ c.req \in {"auto", "open"} \/ ~IsZeroBox(c.box)
-                            /\ c.req = "ortho" => IsDiagonal(c.box)
+                            /\ c.req \in {"auto", "open", "cleanup"} \/ ~IsZeroBox(c.box)
+                            /\ c.req = "cleanup" => IsZeroBox(c.box)
 ASSUME CallsOK
 
-StepJson(s) == [box |-> s.box, req |-> s.req, typ |-> s.typ, vol |-> s.vol, hn2 |-> s.hn2,
+StepJson(s) == [box |-> s.box, req |-> s.req, typ |-> s.typ, loose |-> s.loose, vol |-> s.vol, hn2 |-> s.hn2,
                 probes |-> {[r |-> p.r, d2 |-> p.d2, mins |-> p.mins, tie |-> p.tie, exact |-> p.exact,
                              pairs |-> p.pairs] : p \in s.probes}]
 Leaf == (Emit /\ Len(h) = Depth) => PrintT(ToJson([h |-> [n \in 1..Len(h) |-> StepJson(h[n])]]))
